@@ -327,6 +327,15 @@ func (c *compiler) compile(tok *token) []instruction {
 			res = append(res, instruction{Code: codeSet})
 		} else if arg.Symbol == "." {
 			const indexItem, indexKey = 0, 1
+			left, right := arg.Tokens[indexItem], arg.Tokens[indexKey]
+			if pkg, ok := c.Imports[left.Text]; ok && left.Symbol == "(name)" && !c.Locals.Exists(left.Text) {
+				// a package-level variable of an imported package (pkg.Name += ..., pkg.Name++)
+				idx := reg(c.Globals.Index(pkg + "." + right.Text))
+				res = append(res, instruction{Code: codeGlobalGet, A: idx})
+				res = append(res, todo...)
+				res = append(res, instruction{Code: codeGlobalSet, A: idx})
+				break
+			}
 			res = append(res, c.compile(arg.Tokens[indexItem])...)
 			res = append(res, instruction{Code: codeGetAttr, A: reg(c.Globals.Index(arg.Tokens[indexKey].Text))})
 			res = append(res, todo...)
@@ -450,8 +459,14 @@ func (c *compiler) compile(tok *token) []instruction {
 				res = append(res, instruction{Code: codeSet})
 			} else if arg.Symbol == "." {
 				const indexItem, indexKey = 0, 1
-				res = append(res, c.compile(arg.Tokens[indexItem])...)
-				res = append(res, instruction{Code: codeSetAttr, A: reg(c.Globals.Index(arg.Tokens[indexKey].Text))})
+				left, right := arg.Tokens[indexItem], arg.Tokens[indexKey]
+				if pkg, ok := c.Imports[left.Text]; ok && left.Symbol == "(name)" && !c.Locals.Exists(left.Text) {
+					// a package-level variable of an imported package (pkg.Name = ...), as in the read path
+					res = append(res, instruction{Code: codeGlobalSet, A: reg(c.Globals.Index(pkg + "." + right.Text))})
+					continue
+				}
+				res = append(res, c.compile(left)...)
+				res = append(res, instruction{Code: codeSetAttr, A: reg(c.Globals.Index(right.Text))})
 			} else {
 				code := codeGlobalSet
 				lookup := c.Globals
